@@ -34,6 +34,8 @@ type Hooks struct {
 	OnPluginCall func(ctx context.Context, call, comp string)
 	// OnStatus is called before (after=false) and after (after=true) a status write.
 	OnStatus func(id string, st pipeline.Status, after bool)
+	// OnProcOpen is called inside a processor's Open, before it answers (a slow Open).
+	OnProcOpen func(comp, gen string)
 }
 
 // World is one isolated instance of Conduit's services around fake plugins.
@@ -124,6 +126,8 @@ func (w *World) StopAll(ctx context.Context) {
 type PipelineWrap struct {
 	w *World
 	*pipeline.Service
+	mu     sync.Mutex
+	writes int
 }
 
 func (p *PipelineWrap) UpdateStatus(ctx context.Context, id string, st pipeline.Status, errMsg string) error {
@@ -131,6 +135,16 @@ func (p *PipelineWrap) UpdateStatus(ctx context.Context, id string, st pipeline.
 		h(id, st, false)
 	}
 	p.w.Log.Add(Event{Kind: EvStatusBegin, Comp: id, Src: -1, Seq: -1, Info: st.String()})
+	p.mu.Lock()
+	n := p.writes
+	p.writes++
+	p.mu.Unlock()
+	for _, k := range p.w.Case.StatusFailAt {
+		if k == n {
+			// the store write of this status update fails
+			p.w.DB.Arm(Fault{Kind: FaultSet, Index: 0, KeyPrefix: "pipeline:instance:"})
+		}
+	}
 	err := p.Service.UpdateStatus(ctx, id, st, errMsg)
 	info := st.String()
 	if err != nil {
@@ -141,6 +155,14 @@ func (p *PipelineWrap) UpdateStatus(ctx context.Context, id string, st pipeline.
 		h(id, st, true)
 	}
 	return err
+}
+
+// slowSink is a log sink that takes d per line (a slow terminal, a blocked pipe).
+type slowSink struct{ d time.Duration }
+
+func (s slowSink) Write(p []byte) (int, error) {
+	time.Sleep(s.d)
+	return len(p), nil
 }
 
 func truncate(s string, n int) string {
@@ -161,6 +183,9 @@ func NewWorld(c *Case, evlog *Log, db *FaultDB) *World {
 	}
 	w := &World{Case: c, Log: evlog, DB: db, Sched: NewSched(), conns: map[string]*connState{}}
 	w.Logger = log.New(zerolog.Nop())
+	if c.LogDelayMs > 0 {
+		w.Logger = log.New(zerolog.New(slowSink{d: time.Duration(c.LogDelayMs) * time.Millisecond}).Level(zerolog.WarnLevel))
+	}
 	w.Plugins = &Plugins{w: w}
 	w.ProcReg = &ProcRegistry{w: w}
 
